@@ -1,6 +1,6 @@
 """Single source of truth for MANIFEST.json (written by bin/mkmanifest)."""
 
-HOOK_COMMITS = ["af6de69"]   # filled as hook commits are made in /repo
+HOOK_COMMITS = ["af6de69", "d391189", "0c3ce93"]   # hook commits made in /repo
 
 CHECKS = {
     "C17": dict(
@@ -30,7 +30,8 @@ CHECKS = {
         text=("Stats.tla defines the 14 statistics on genotypes (from the statement), on spectra (as computed) and the published "
               "estimators in exact rationals; StatsCheck.tla grows call sets site by site and TLC checks spectrum-level = "
               "genotype-level in every state; all states and large-n estimator cases are replayed through create | stat and the "
-              "Spectrum methods."),
+              "Spectrum methods; StatCli.tla models the stat output layout (order, separators, header, precision) and is "
+              "replayed on `sfs stat`."),
         design_ref="DESIGN.md section 3 (C06)",
         note=("Exhaustive over genotype multisets in the bound (quick: up to 3 sites for <=2 individuals, 2 for 3, 1 for 4; thorough "
               "one more) and the listed n for estimators. Trusted: TLC, Q.class, harness VCF rendering."),
@@ -60,7 +61,7 @@ CHECKS = {
         category="model_checking",
         text=("Transport.tla: the consumers' I/O logic (npy reader loop, create-input detection + decoding, writer) against an "
               "environment that owns chunk schedule and failure offset; TLC checks schedule-independence and that failures "
-              "surface, on models carrying the real file lengths; every schedule is replayed with scheduled readers/writers on "
+              "surface, on models carrying the real file lengths (small files and files larger than every internal buffer); every schedule is replayed with scheduled readers/writers on "
               "Array::read_npy, the genotype reader (hook) and the spectrum writer."),
         design_ref="DESIGN.md section 3 (C18)",
         note=("First-chunk length exhaustive per file (quick: up to 120), later chunks in {1,2,7,64,rest}, failure at every offset "
@@ -71,7 +72,8 @@ CHECKS = {
         category="model_checking",
         text=("ToolChain.tla: all producer -> transformer* -> consumer chains over formats, precisions and transports with the "
               "artefact in flight as state (format identifiable from its first bytes, exact rounding bound); each chain is run "
-              "with real processes, files and pipes; plus library round trips and the 15-digit text/npy/text identity."),
+              "with real processes, files, pipes and named pipes, onto fresh and stale destinations; plus library round trips, "
+              "large artefacts and the 15-digit text/npy/text identity."),
         design_ref="DESIGN.md section 3 (C07)",
         note=("Chains exhaustive up to the step bound (quick 2, thorough 3) over precisions {0,6,17}; values are a fixed pool, "
               "not all f64. Trusted: TLC, Q.class, harness parsers for both formats."),
@@ -98,14 +100,14 @@ CHECKS = {
     ),
     "C01": dict(
         category="model_checking",
-        text=('Create.tla without projection: TLC checks the spectrum equals the declarative per-record count for every scenario in the bound and that unselected samples never matter; every behaviour is replayed record by record on site::Reader and end to end on `sfs create` (exact stdout bytes).'),
+        text=('Create.tla without projection: TLC checks the spectrum equals the declarative per-record count for every scenario in the bound and that unselected samples never matter; every behaviour is replayed record by record on site::Reader and end to end on `sfs create` (exact stdout bytes) through the VCF text path and the BCF binary path (own BCF encoder), at six output precisions and all verbosity levels.'),
         design_ref="DESIGN.md sections 2 and 3 (C01)",
         note=('Exhaustive inside the scenario bounds of the listed MCCreate_*.cfg; beyond them (more samples, longer streams) nothing is claimed by this check. Trusted: TLC, Q.class, harness file synthesis and comparison.'),
         technique="TLA+ pipeline state machine (Create.tla) with declarative oracle, TLC exhaustive enumeration, behaviour replay through library and binary",
     ),
     "C02": dict(
         category="model_checking",
-        text=('Create.tla with projection: the three apply paths as coded (exact, projected via the odometer, insufficient) against the declarative hypergeometric contribution for every admissible target; replay on library and binary with both CLI spellings and four precisions.'),
+        text=('Create.tla with projection: the three apply paths as coded (exact, projected via the odometer, insufficient) against the declarative hypergeometric contribution for every admissible target; replay on library and binary with both CLI spellings and six precisions; CreateLarge.tla adds cohorts of 20-200 chromosomes whose exact hypergeometric rows (BigInteger rationals from TLC) are compared to 1e-9 relative at precision 40.'),
         design_ref="DESIGN.md sections 2 and 3 (C02)",
         note=('Exhaustive inside the scenario bounds of the listed MCCreate_*.cfg; beyond them (more samples, longer streams) nothing is claimed by this check. Trusted: TLC, Q.class, harness file synthesis and comparison.'),
         technique="TLA+ pipeline state machine (Create.tla) with declarative oracle, TLC exhaustive enumeration, behaviour replay through library and binary",
@@ -126,14 +128,14 @@ CHECKS = {
     ),
     "C10": dict(
         category="model_checking",
-        text=('Create.tla with faults: conservation (mass + skipped = sites) as a state invariant; strict failure at the first skippable record; all-or-nothing output; fault rows at every stream position; replayed on the binary (exit status, empty stdout, diagnostics naming contig:pos, skip summary).'),
+        text=('Create.tla with faults: conservation (mass + skipped = sites) as a state invariant; strict failure at the first skippable record; all-or-nothing output; fault rows at every stream position; replayed on the binary (exit status, empty stdout, diagnostics naming contig:pos, skip summary); Create.tla is also checked to refine CreateCounters.tla (TLC), the counter invariant is proved inductive with Apalache, and event traces recorded from the real create loop (hook, cfg sfs_verif) are validated against CreateTrace.tla.'),
         design_ref="DESIGN.md sections 2 and 3 (C10)",
         note=('Exhaustive inside the scenario bounds of the listed MCCreate_*.cfg; beyond them (more samples, longer streams) nothing is claimed by this check. Trusted: TLC, Q.class, harness file synthesis and comparison.'),
         technique="TLA+ pipeline state machine (Create.tla) with declarative oracle, TLC exhaustive enumeration, behaviour replay through library and binary",
     ),
     "C11": dict(
         category="model_checking",
-        text=('Create.tla keeps the per-record accumulators and the projection scratch index as persistent state with explicit resets (as the code does); additivity and order-freedom are TLC invariants over all histories in the bound; sabotage configs without the resets are rejected by TLC.'),
+        text=('Create.tla keeps the per-record accumulators and the projection scratch index as persistent state with explicit resets (as the code does); additivity and order-freedom are TLC invariants over all histories in the bound; sabotage configs without the resets are rejected by TLC; behaviours (including histories with repeated and permuted records and the CreateLarge cohorts) are replayed on the binary and on the library record by record.'),
         design_ref="DESIGN.md sections 2 and 3 (C11)",
         note=('Exhaustive inside the scenario bounds of the listed MCCreate_*.cfg; beyond them (more samples, longer streams) nothing is claimed by this check. Trusted: TLC, Q.class, harness file synthesis and comparison.'),
         technique="TLA+ pipeline state machine (Create.tla) with declarative oracle, TLC exhaustive enumeration, behaviour replay through library and binary",
